@@ -227,6 +227,34 @@ E("filter/lowpass", 1, lambda s: audiolazy.lowpass(0.5)(s[0]), same(1))
 E("filter/comb", 1, lambda s: audiolazy.comb(3, .5)(s[0]), same(1))
 E("filter/resonator", 1, lambda s: audiolazy.resonator(1., .2)(s[0]), same(1))
 
+def v_cut(n):
+  return 0.3 + 0.1 * (n % 5)
+
+
+VALS["cut"] = v_cut
+for _name, _mk in [
+    ("lowpass.pole", lambda c: audiolazy.lowpass.pole(c)),
+    ("lowpass.z", lambda c: audiolazy.lowpass.z(c)),
+    ("highpass.pole_exp", lambda c: audiolazy.highpass.pole_exp(c)),
+    ("highpass.z", lambda c: audiolazy.highpass.z(c)),
+    ("resonator.poles_exp", lambda c: audiolazy.resonator.poles_exp(c, .2)),
+    ("resonator.z_exp-bw", lambda c: audiolazy.resonator.z_exp(1., c)),
+    ("comb.fb-alpha", lambda c: audiolazy.comb.fb(2, c)),
+    ("comb.tau", lambda c: audiolazy.comb.tau(3, c * 20)),
+    ("envelope.rms-cutoff", None),
+]:
+  if _mk is None:
+    E("filter/stream-param/" + _name, 2,
+      lambda s: envelope.rms(s[0], cutoff=Stream(s[1])), same(2), vals="cut")
+  else:
+    E("filter/stream-param/" + _name, 2,
+      lambda s, mk=_mk: mk(Stream(s[1]))(s[0]), same(2), vals="cut")
+E("filter/stream-param/gammatone.klapuri", 2,
+  lambda s: audiolazy.gammatone.klapuri(Stream(s[1]), .2)(s[0]), same(2),
+  vals="cut")
+E("synth/karplus_strong-memory", 0,
+  lambda s: audiolazy.karplus_strong(.5, memory=[1., 0., -1.] * 8), same(0))
+
 # ---- E. blockenizers --------------------------------------------------------------
 for _size, _hop in [(4, 4), (5, 2), (3, 5), (1, 1), (6, 1)]:
   E("blocks/%d-%d" % (_size, _hop), 1,
